@@ -133,7 +133,8 @@ def step_audit(ctx, module, theorems):
     os.makedirs(os.path.join(LEAN, ".lake", "audit"), exist_ok=True)
     f = os.path.join(LEAN, ".lake", "audit", f"{ctx.prop}.lean")
     with open(f, "w") as fh:
-        fh.write(f"import {module}\n" + "".join(f"#print axioms {t}\n" for t in theorems))
+        mods = module if isinstance(module, (list, tuple)) else [module]
+        fh.write("".join(f"import {m}\n" for m in mods) + "".join(f"#print axioms {t}\n" for t in theorems))
     rc, out, err = sh(["lake", "env", "lean", f], cwd=LEAN, timeout=1200)
     res = {}
     cur = None
@@ -283,7 +284,7 @@ def run(ctx, P, args):
     if ctx.build_ok:
         step_audit(ctx, P["module"], P["theorems"])
         if ctx.tier == "thorough":
-            step_leanchecker(ctx, P.get("checker_modules", [P["module"]]))
+            step_leanchecker(ctx, P.get("checker_modules", P["module"] if isinstance(P["module"], list) else [P["module"]]))
     # correspondence + monitor (also runs when the proofs broke: that is the failing-input search)
     replay_case = None
     if args.replay:
@@ -347,7 +348,7 @@ def write_evidence(ctx, P, proof_ok, nviol):
         "obligations": n_ob,
         "discharged": discharged,
         "checker_cmd": f"cd lean && lake build {' '.join(P['targets'])} && lake env lean .lake/audit/{ctx.prop}.lean  # #print axioms"
-                       + (" && lake env leanchecker " + " ".join(P.get("checker_modules", [P["module"]])) if ctx.tier == "thorough" else ""),
+                       + (" && lake env leanchecker " + " ".join(P.get("checker_modules", P["module"] if isinstance(P["module"], list) else [P["module"]])) if ctx.tier == "thorough" else ""),
         "trusted_base": TRUSTED_BASE + P.get("trusted_extra", []),
         "theorems": {t: ctx.audit.get("axioms", {}).get(t) for t in P["theorems"]},
         "layout_entries_differing_from_pinned": len(ctx.layout_diff),
